@@ -473,6 +473,12 @@ func selfTestOPC() error {
 		{"two main parts", func(m map[string]string) {
 			m["_rels/.rels"] = strings.Replace(m["_rels/.rels"], "</Relationships>", `<Relationship Id="rId7" Type="`+opc.RelDoc+`" Target="word/document.xml"/></Relationships>`, 1)
 		}, (*opc.Package).CheckC01, "main-part/officeDocument-count"},
+		{"content types outside their namespace", func(m map[string]string) {
+			m["[Content_Types].xml"] = strings.Replace(m["[Content_Types].xml"], `xmlns="http://schemas.openxmlformats.org/package/2006/content-types"`, `xmlns=""`, 1)
+		}, (*opc.Package).CheckC01, "content-types/not-the-content-types-vocabulary"},
+		{"package relationships outside their namespace", func(m map[string]string) {
+			m["_rels/.rels"] = strings.Replace(m["_rels/.rels"], `xmlns="http://schemas.openxmlformats.org/package/2006/relationships"`, `xmlns=""`, 1)
+		}, (*opc.Package).CheckC01, "main-part/not-the-relationships-vocabulary"},
 	}
 	for _, b := range bads {
 		pk := opc.Read(gen.MinimalPackage(b.mut))
